@@ -3,11 +3,13 @@
    Attr/Distances.v).  All statements are over arbitrary topologies (object
    tables), object lists, matrices, kind / flag words and list states.
 
-   Three statements are FALSE on the code as it is (FIX_* = false in
-   Attr/Distances.v); each has a [_refuted] witness (replayed on the C code by
-   checks/c13.py, corpus/c13/*.case), a [_partial] theorem under the hypothesis
-   that excludes exactly the failing class, and a [_postfix] theorem about the
-   patched statement (/verif/patches/fix-C13-*.diff). *)
+   The four statements that were false on the original code (objs[0]==NULL
+   accepted, MERGE_SWITCH_PORTS dropping non-port objects, get_by_name hiding
+   kinds without FROM_*/VALUE_* bit, XML import refusing kind 0) were fixed in
+   the repository (cc2297b, 59694b5, a30dc2a, 796206b; see known_findings.txt);
+   the model follows the fixed code (FIX_* = true in Attr/Distances.v) and the
+   full theorems below replace the former _refuted/_partial pairs.  The
+   minimised inputs stay in corpus/c13. *)
 From Coq Require Import List NArith ZArith Bool Lia Sorting.Sorted.
 From HV Require Import Gen.Tables Attr.Distances Attr.DistancesProofs.
 Import ListNotations.
@@ -79,40 +81,10 @@ Theorem dist_get_by_depth_is_by_type :
   get_by_depth t depth kind 0 garbage = if (ty =? TYPE_NONE)%N then (t, Err EINVAL) else get_by_type t ty kind 0 garbage.
 Proof. intros. unfold get_by_depth, get_by_type. simpl. fold ty. destruct (ty =? TYPE_NONE)%N; reflexivity. Qed.
 
-(* get_by_name: "exactly the structures carrying that name" is false on the
-   current code: the KIND_ALL filter hides kinds without a FROM_* or VALUE_* bit *)
-Definition t_onlylat : topo :=
-  Topo [Obj HWLOC_OBJ_NUMANODE 8 0 false; Obj HWLOC_OBJ_NUMANODE 16 1 false] [HWLOC_OBJ_MACHINE]
-       [IDist (Some [108%N]) 0 HWLOC_DISTANCES_KIND_VALUE_LATENCY HWLOC_OBJ_NUMANODE None 2 [0%N; 1%N]
-              [Some (Obj HWLOC_OBJ_NUMANODE 8 0 false); Some (Obj HWLOC_OBJ_NUMANODE 16 1 false)] [1;2;3;4]%N true] 1.
-
-Theorem dist_get_by_name_refuted :
-  exists t n d, In d (t_dists t) /\ d_valid d = true /\ d_name d = Some n /\ kind_okb (d_kind d) = true /\
-    snd (get_by_name_gen false t (Some n) 0 [None]) = Ok (O, [None]).
-Proof.
-  exists t_onlylat, [108%N]. eexists. split; [left; reflexivity|]. vm_compute. auto.
-Qed.
-
-Theorem dist_get_by_name_partial :
+(* get_by_name returns exactly the structures carrying that name (any kind word) *)
+Theorem dist_get_by_name :
   forall t n garbage,
-  Forall kind_complete (t_dists (refresh t)) ->
-  get_by_name_gen false t (Some n) 0 garbage =
-  let ms := filter (name_matches (Some n)) (t_dists (refresh t)) in
-  (refresh t, Ok (length ms, firstn (length garbage) (map pub ms) ++ repeat None (length garbage - length ms))).
-Proof.
-  intros t n garbage H. unfold get_by_name_gen. rewrite get_core_spec.
-  rewrite (filter_ext_Forall (matches (Some n) TYPE_NONE HWLOC_DISTANCES_KIND_ALL) (name_matches (Some n))).
-  - reflexivity.
-  - eapply Forall_impl; [|exact H]. intros d Hd. apply by_name_matches; auto.
-Qed.
-Print Assumptions dist_get_by_name_partial.
-
-Example kind_complete_nonvacuous : kind_complete (IDist None 0 6 0 None 0 [] [] [] true).
-Proof. split; vm_compute; discriminate. Qed.
-
-Theorem dist_get_by_name_postfix :
-  forall t n garbage,
-  get_by_name_gen true t (Some n) 0 garbage =
+  get_by_name t (Some n) 0 garbage =
   (let ms := filter (name_matches (Some n)) (t_dists (refresh t)) in
    (refresh t, Ok (length ms, firstn (length garbage) (map pub ms) ++ repeat None (length garbage - length ms))))
   /\ forall d, name_matches (Some n) d = true <-> d_name d = Some n.
@@ -164,54 +136,34 @@ Theorem dist_reject_unchanged :
 Proof. intros until e. apply add_full_err_unchanged. Qed.
 Print Assumptions dist_reject_unchanged.
 
-(* dist_reject_identity (every invalid add is rejected) is false on the current
-   code: objs[0] == NULL passes the scan that starts at i = 1 *)
+(* dist_reject_identity: every add that is invalid for any documented reason
+   (kind word, create flags, values flags, nbobjs < 2, a NULL object anywhere,
+   commit flags) is rejected and leaves the list unchanged *)
 Definition o_core1 : obj := Obj HWLOC_OBJ_CORE 7 1 false.
-Theorem dist_reject_identity_refuted :
-  exists t name kind nb objs values,
-    invalid_add kind 0 nb objs 0 0 /\
-    exists t' d, add_full_gen false t name kind 0 nb objs values 0 0 = (t', Ok tt) /\
-                 t_dists t' = t_dists t ++ [d] /\ d_nb d = 1%nat.
-Proof.
-  exists (Topo [o_core1] [] [] 0), None, 6%N, 2%nat, [None; Some o_core1], [1;2;3;4]%N.
-  split; [right; right; right; right; left; reflexivity|].
-  eexists. eexists. split; [vm_compute; reflexivity|]. split; vm_compute; reflexivity.
-Qed.
-
-Theorem dist_reject_identity_partial :
-  forall t name kind cflags nb (objs : list oref) values vflags commitflags,
-  invalid_add_but_null_first kind cflags nb objs vflags commitflags ->
-  exists t' e, add_full_gen false t name kind cflags nb objs values vflags commitflags = (t', Err e) /\
-               t_dists t' = t_dists t.
-Proof. intros. apply add_full_rejects_gen. exact H. Qed.
-Print Assumptions dist_reject_identity_partial.
-
-Example invalid_but_null_first_nonvacuous :
-  invalid_add_but_null_first 6 0 3 [Some o_core1; None; Some o_core1] 0 0.
-Proof. right; right; right; right; left. reflexivity. Qed.
-
-Theorem dist_reject_identity_postfix :
+Theorem dist_reject_identity :
   forall t name kind cflags nb (objs : list oref) values vflags commitflags,
   invalid_add kind cflags nb objs vflags commitflags ->
-  exists t' e, add_full_gen true t name kind cflags nb objs values vflags commitflags = (t', Err e) /\
+  exists t' e, add_full t name kind cflags nb objs values vflags commitflags = (t', Err e) /\
                t_dists t' = t_dists t.
-Proof. intros. apply add_full_rejects_gen. exact H. Qed.
-Print Assumptions dist_reject_identity_postfix.
+Proof. intros. apply (add_full_rejects_gen true). exact H. Qed.
+Print Assumptions dist_reject_identity.
+
+Example invalid_add_nonvacuous :
+  invalid_add 6 0 2 [None; Some o_core1] 0 0 /\ invalid_add 6 0 3 [Some o_core1; None; Some o_core1] 0 0.
+Proof. split; right; right; right; right; left; reflexivity. Qed.
 
 (* the model in force is the current code *)
 Theorem model_follows_current_source :
-  FIX_NULL_FIRST = false /\ FIX_MERGE_PORTS = false /\ FIX_BY_NAME_KIND = false /\ FIX_XML_KIND_ZERO = false.
+  FIX_NULL_FIRST = true /\ FIX_MERGE_PORTS = true /\ FIX_BY_NAME_KIND = true /\ FIX_XML_KIND_ZERO = true.
 Proof. auto. Qed.
 
-(* kind 0 passes add_create but the XML import refuses it (the whole load fails) *)
-Theorem xml_roundtrip_kind_zero_refuted :
-  exists t d, t_dists t = [d] /\ kind_okb (d_kind d) = true /\ d_valid d = true /\
-              xml_roundtrip t (t_objs t) (t_levels t) = Err EINVAL.
+(* the XML import accepts every structure the export can write (kind 0 included):
+   it fails only on nbobjs = 0, which no committed structure has *)
+Theorem xml_import_accepts_every_kind :
+  forall d, d_nb d <> O -> xml_import_one d <> None.
 Proof.
-  exists (Topo [Obj HWLOC_OBJ_NUMANODE 8 0 false; Obj HWLOC_OBJ_NUMANODE 16 1 false] [HWLOC_OBJ_MACHINE]
-       [IDist None 0 0 HWLOC_OBJ_NUMANODE None 2 [0%N; 1%N]
-              [Some (Obj HWLOC_OBJ_NUMANODE 8 0 false); Some (Obj HWLOC_OBJ_NUMANODE 16 1 false)] [1;2;3;4]%N true] 1).
-  eexists. split; [reflexivity|]. vm_compute. auto.
+  intros d H. unfold xml_import_one. destruct (d_nb d) as [|n] eqn:E; [congruence|]. simpl.
+  destruct (S n <? 2)%nat; discriminate.
 Qed.
 
 (* ---------------- follow the objects ---------------- *)
@@ -306,35 +258,12 @@ Theorem transform_remove_null :
 Proof. exact transform_remove_null_spec. Qed.
 Print Assumptions transform_remove_null.
 
-(* MERGE_SWITCH_PORTS keeps every non-port object: false on the current code *)
-Definition o_gpu (g : N) : obj := Obj HWLOC_OBJ_CORE g 0 false.
-Definition o_port (g : N) : obj := Obj HWLOC_OBJ_CORE g 0 true.
-Theorem transform_merge_ports_keeps_nonports_refuted :
-  exists p j o, wf_pdist p /\ nth j (p_objs p) None = Some o /\ o_nvs o = false /\
-    exists p', transform_merge_switch_ports_gen false p = (p', Ok tt) /\ ~ In (Some o) (p_objs p').
-Proof.
-  exists (PDist 0 3 [Some (o_gpu 3); Some (o_port 5); Some (o_gpu 7)] 10 [0;1;2;3;4;5;6;7;8]%N), 2%nat, (o_gpu 7).
-  split; [split; reflexivity|]. split; [reflexivity|]. split; [reflexivity|].
-  eexists. split; [vm_compute; reflexivity|].
-  simpl. intros [H|[H|H]]; try discriminate; auto.
-Qed.
-
-(* partial: objects listed before the first port (positions the loop does not visit) are kept *)
-Theorem transform_merge_ports_keeps_nonports_partial :
-  forall js nb i (objs : list oref) v j,
-  ~ In j js -> nth j (fst (merge_loop false js nb i objs v)) None = nth j objs None.
-Proof. intros. apply merge_loop_untouched; auto. Qed.
-
-(* ... and what the current loop does to every position after the first port *)
-Theorem transform_merge_ports_current_drops_all :
-  forall js nb i (objs : list oref) v j,
-  In j js -> (j < length objs)%nat -> nth j (fst (merge_loop false js nb i objs v)) None = None.
-Proof. exact merge_current_drops. Qed.
-
-Theorem transform_merge_ports_keeps_nonports_postfix :
+(* MERGE_SWITCH_PORTS keeps every non-port object (the loop of the transform, for
+   every list of visited positions after the first port i) *)
+Theorem transform_merge_ports_keeps_nonports :
   forall js nb i (objs : list oref) v j,
   (forall j', In j' js -> (i < j')%nat) ->
   is_nvswitch (nth j objs None) = false ->
-  nth j (fst (merge_loop true js nb i objs v)) None = nth j objs None.
+  nth j (fst (merge_loop FIX_MERGE_PORTS js nb i objs v)) None = nth j objs None.
 Proof. exact merge_fixed_keeps_nonports. Qed.
-Print Assumptions transform_merge_ports_keeps_nonports_postfix.
+Print Assumptions transform_merge_ports_keeps_nonports.
